@@ -265,7 +265,7 @@ def render(prog, twin=False):
     lines = []
     if prog.get("klass"):
         # defined in a class body (a static method): private names (__x) are mangled with the class name
-        lines.append(f"class K{prog['name']}:")
+        lines.append(f"class K{prog['name']}_:")
         lines.append("    @staticmethod")
     if prog["closure"]:
         lines.append(f"def make_{prog['name']}():")
@@ -287,7 +287,7 @@ def render(prog, twin=False):
         lines.append(f"    return {prog['name']}")
         lines.append(f"{prog['name']} = make_{prog['name']}()")
     if prog.get("klass"):
-        lines.append(f"{prog['name']} = K{prog['name']}.{prog['name']}")
+        lines.append(f"{prog['name']} = K{prog['name']}_.{prog['name']}")
     return HEADER + "\n".join(lines) + "\n"
 
 
